@@ -48,7 +48,10 @@ def trim_weights(
         weights_trimmed = weights[mask]
         weights_trimmed /= np.sum(weights_trimmed)
         ess_trimmed = 1.0 / np.sum(weights_trimmed**2.0)
-        if ess_trimmed / ess_total >= ess:
+        # At percentile 0 nothing is trimmed and the ratio is 1 up to rounding (the
+        # second normalisation can move it to 1 - 2**-52): stop there instead of
+        # walking off the grid for a requested fraction that close to 1.
+        if ess_trimmed / ess_total >= ess or i == 0:
             break
         i -= 1
 
